@@ -39,6 +39,50 @@ def _held(classes):
     return out
 
 
+FAULT_TO_FAIL = {"none": "none", "corrupt": "load", "wrongkind": "load", "body": "body", "save-io": "save", "save-ser": "save"}
+MUT_NAMES = {"dsetitem", "ddelitem", "dpop", "dpopitem", "dclear", "dupdate", "dsetdefault", "dreset", "lsetitem", "ldelitem",
+             "linsert", "lappend", "lextend", "liadd", "lremove", "lclear", "lpop", "lreverse", "lreset"}
+
+
+def bracket_check(md, log, op, fault, nested, buffered, raised, buffered_class):
+    """tie to SC/Conc.lean `Bracket.trace`: the outermost lock transitions of a mutator must be
+    the model's for the same (buffered, no-load, failure point); all I/O and merges of the
+    operation happen while its outermost lock is held.  Returns a problem string or None."""
+    if op[0] not in MUT_NAMES or fault == "invalid":
+        return None
+    no_load = (not nested) and op[0] in ("dclear", "lclear", "dreset", "lreset")
+    fail = FAULT_TO_FAIL[fault]
+    if fail == "body" and not raised:
+        fail = "none"
+    if fail == "load" and no_load:
+        fail = "none" if buffered == "no" else "none"
+    if not raised:
+        fail = "none"
+    is_buf = buffered_class
+    line = md.query("br %d %d %s" % (1 if is_buf else 0, 1 if no_load else 0, fail))
+    want = [e for e in line[len("events: "):].split("; ") if e.startswith(("acq", "rel"))]
+    got = []
+    held = []
+    for kind, info in log:
+        if kind in ("acq", "rel"):
+            role = "buffer" if str(info).startswith("buffer(") else "file" if str(info).startswith("file(") else str(info)
+            if role.startswith("cls("):
+                continue
+            got.append("%s %s" % (kind, role))
+            if kind == "acq":
+                held.append(role)
+            elif role in held:
+                held.remove(role)
+        elif kind in ("read", "write", "merge", "bufload", "bufsave"):
+            guard = "buffer" if is_buf else "file"
+            if guard not in held:
+                return "%s of %s happens outside the %s lock" % (kind, op[0], guard)
+    # in buffered mode a forced flush / further brackets may follow inside; compare the outer shape
+    if got[: len(want) // 2] != want[: len(want) // 2] or got[-(len(want) // 2):] != want[-(len(want) // 2):]:
+        return "lock events of %s (%s%s): real %s, model %s" % (op[0], fault, ", buffered" if is_buf else "", got, want)
+    return None
+
+
 def unit_c10_faults(args):
     fam_index, is_dict, nested, buffered, seed = args
     ns = env.load()
@@ -60,6 +104,11 @@ def unit_c10_faults(args):
     n = 0
     errors_seen = 0
     try:
+        cases = [(op, "none") for op in muts] + cases
+        import suites
+        md = suites.model_driver(ns)
+        S.install_event_hooks(ns)
+        tie_problem = None
         for op, fault in cases:
             drive.reset_class_state(ns)
             S.instrument_locks(ns, classes)
@@ -97,6 +146,7 @@ def unit_c10_faults(args):
                             raise TypeError("not serialisable")
                         ns.json_mod.json.dumps = bad_dumps
                     raised = None
+                    S.EVENT_LOG[0] = []
                     try:
                         apply_call(tgt, op[0], list(op[1:]))
                     except Exception as e:  # noqa: BLE001
@@ -104,6 +154,10 @@ def unit_c10_faults(args):
                     finally:
                         ns.json_mod.JSONCollection._save_to_resource = orig_save
                         ns.json_mod.json.dumps = orig_dumps
+                        oplog = S.EVENT_LOG[0]
+                        S.EVENT_LOG[0] = None
+                    if tie_problem is None:
+                        tie_problem = bracket_check(md, oplog, op, fault, nested, buffered, raised, fam.buffered is not None)
                     n += 1
                     if raised:
                         errors_seen += 1
@@ -145,6 +199,8 @@ def unit_c10_faults(args):
                 drive.reset_class_state(ns)
         res["steps"] = n
         res["stats"] = {"fault_cases": n, "raised": errors_seen}
+        if tie_problem:
+            res["tie_problem"] = tie_problem
     except Exception:  # noqa: BLE001
         return dict(kind="oracle", fam=fam_index, seed=seed, profile="c10", crash=traceback.format_exc())
     return res
